@@ -381,6 +381,7 @@ func run(ops []op) (sig string, err error, nt bool, classes []string) {
 	localstore.VerifSetNow(func() int64 { clock++; return clock })
 	for i, o0 := range ops {
 		o := normalise(m1, o0)
+		twinDedup := false
 		if isMultiReqPutUnderRoot(o) {
 			cls["multi-put-request-with-root"] = true
 			if evid.Known(sigBatch) {
@@ -393,8 +394,12 @@ func run(ops []op) (sig string, err error, nt bool, classes []string) {
 		if hasDupPin(o) {
 			cls["in-call-duplicate-pinning-put"] = true
 			if evid.Known(sigDupPin) {
+				// known finding: the repeated chunk is pinned once, not once per occurrence. Only that
+				// divergence is set aside: the call itself runs unchanged on the first store (flags, presence
+				// and bytes are judged as always); the one-at-a-time twin gets each distinct chunk once, so
+				// both stores keep agreeing on the pin counts afterwards
 				evid.Get(id).Excluded(sigDupPin)
-				o.Addrs = dedup(o.Addrs)
+				twinDedup = true
 			} else if taint == "" {
 				taint = sigDupPin
 			}
@@ -438,7 +443,11 @@ func run(ops []op) (sig string, err error, nt bool, classes []string) {
 		}
 		// second store: same op, multi-puts split into singles
 		if o.K == "put" && len(o.Addrs) > 1 {
-			for _, a := range o.Addrs {
+			twin := o.Addrs
+			if twinDedup {
+				twin = dedup(o.Addrs)
+			}
+			for _, a := range twin {
 				o1 := o
 				o1.Addrs = []int{a}
 				if e, _, _ := exec(s2, m2, o1, i, false); e != nil && opErr == nil {
